@@ -127,6 +127,36 @@ def datagramOf (st : St) (ws : List String) : Option Bytes := do
   let muts := ws.filter (fun w => w.startsWith "mut=") |>.map (fun w => (w.drop 4).toString)
   applyMuts base muts
 
+def ptypeOfNat (n : Nat) : PType :=
+  match PType.ofWire n with | .ok t => t | .error _ => .unknown
+
+def hdrOf (ws : List String) : Option Header := do
+  let srv ← kvNat ws "srv"
+  let ct ← kvNat ws "ct"
+  let ty ← kvNat ws "ty"
+  let seq ← kvNat ws "seq"
+  let ack ← kvNat ws "ack"
+  let bits ← kvNat ws "bits"
+  let len := (kvNat ws "len").getD 0
+  let cnt := (kvNat ws "cnt").getD 0
+  pure ⟨srv == 1, ct, ptypeOfNat ty, seq, ack, bits, len, cnt⟩
+
+def showHdr (h : Header) : String :=
+  s!"srv={if h.isServer then 1 else 0} ct={h.ctime} ty={h.ptype.toNat} seq={h.seq} ack={h.ack} bits={h.ackBits} len={h.length} cnt={h.count}"
+
+def parseMsgList (s : String) : Option (List WMsg) :=
+  if s == "-" then some [] else
+  (s.splitOn ";").mapM (fun m => match m.splitOn ":" with
+    | [a, b, c] => do
+      let sq ← a.toNat?
+      let ty ← b.toNat?
+      let pl ← fromHex c
+      pure ⟨sq, ptypeOfNat ty, pl⟩
+    | _ => none)
+
+def showMsgList (ms : List WMsg) : String :=
+  if ms.isEmpty then "-" else ";".intercalate (ms.map (fun m => s!"{m.seq}:{m.ty.toNat}:{toHexD m.payload}"))
+
 def stepLine (st : St) (line : String) : St × List String :=
   let ws := words line
   match ws with
@@ -200,6 +230,35 @@ def stepLine (st : St) (line : String) : St × List String :=
     | some ep, some t =>
       let (c, ev) := checkTimeout ep.conn t
       (setEp st e { ep with conn := c }, [s!"ev={showEvents ev}"])
+    | _, _ => (st, ["bad-op"])
+  | "henc" :: rest =>
+    match hdrOf rest with
+    | some h => (st, [match encodeHdr h with | .ok b => "ok:" ++ toHex b | .error x => "err:" ++ wireErrName x])
+    | none => (st, ["bad-op"])
+  | "hdec" :: rest =>
+    match kvNat rest "srv", (kv rest "d").bind fromHex with
+    | some srv, some d =>
+      (st, [match decodeHdr (srv == 1) d with | .ok h => "ok " ++ showHdr h | .error x => "err:" ++ wireErrName x])
+    | _, _ => (st, ["bad-op"])
+  | "penc" :: rest =>
+    -- Packet.create(hdr, msgs).to_bytes(None)
+    match hdrOf rest, (kv rest "msgs").bind parseMsgList with
+    | some h, some ms =>
+      (st, [match create h ms with
+        | .error x => "err:" ++ wireErrName x
+        | .ok p => match toBytes Toy.crypto none p with
+          | .ok d => s!"ok len={p.hdr.length} cnt={p.hdr.count} d={toHex d}"
+          | .error x => "err:" ++ wireErrName x])
+    | _, _ => (st, ["bad-op"])
+  | "pdec" :: rest =>
+    -- PacketHeader.from_bytes(srv, d) ; Packet.from_bytes(hdr, None, d)
+    match kvNat rest "srv", (kv rest "d").bind fromHex with
+    | some srv, some d =>
+      (st, [match decodeHdr (srv == 1) d with
+        | .error x => "hdrerr:" ++ wireErrName x
+        | .ok h => match fromBytes Toy.crypto h none d with
+          | .ok p => s!"ok {showHdr p.hdr} msgs={showMsgList p.msgs}"
+          | .error x => "err:" ++ wireErrName x])
     | _, _ => (st, ["bad-op"])
   | ["take", e] =>
     -- application drains incoming_messages
